@@ -6,7 +6,7 @@
 (*   - model checked with plain TLC integers (IntNum, small ceilings), and *)
 (*   - used to validate traces of the real code whose values (2^32-1,      *)
 (*     uint64 bookkeeping counters, multiplicities up to 2^40) do not fit  *)
-(*     TLC's 32-bit integers (BigNum: two limbs, radix 2^20).              *)
+(*     TLC's 32-bit integers (DigNum: digit sequences, radix 2^30).        *)
 (***************************************************************************)
 EXTENDS Naturals, Sequences
 CONSTANTS NAdd(_, _),   \* a + b
